@@ -138,6 +138,7 @@ fn real_main(cmd: &str, args: &Args) -> i32 {
         "replay" => replay(args),
         "scenario" => scenario(args),
         "distinct" => distinct(args),
+        "cli-cases" => cli_cases(args),
         "one" => one(args),
         "minimise" => minimise_cmd(args),
         _ => {
@@ -159,6 +160,7 @@ fn batch(args: &Args) -> i32 {
     let mut agg = Agg::default();
     let t0 = std::time::Instant::now();
     let mut ctx = engines::Ctx::new(args);
+    let mut trace: Option<std::fs::File> = None;
     for i in from..to {
         let _ = cur.seek(SeekFrom::Start(0));
         let _ = cur.write_all(format!("{:>20}\n", i).as_bytes());
@@ -167,6 +169,12 @@ fn batch(args: &Args) -> i32 {
         let res = engines::run_one(&engine, run_seed, &mut ctx);
         agg.add(&res.stats);
         agg.add_counts(&res.counts);
+        if let Some(line) = &res.trace_line {
+            if trace.is_none() {
+                trace = Some(std::fs::File::create(format!("{}.trace", out)).expect("trace file"));
+            }
+            let _ = writeln!(trace.as_mut().unwrap(), "{} {}", i, line);
+        }
         if agg.samples.len() < keep_samples && res.stats.nontrivial {
             agg.samples.push(json!({"index": i, "run_seed": run_seed, "case": res.sample, "outcome": res.stats.outcome,
                 "faults": res.stats.faults, "events": res.stats.events}));
@@ -320,5 +328,24 @@ fn distinct(args: &Args) -> i32 {
         }
     }
     println!("{}", set.len());
+    0
+}
+
+/// Prints JSON lines {"program", "expect": [EXEC, CODE, INT lines]} for the CLI clause of C14.
+fn cli_cases(args: &Args) -> i32 {
+    let seed = args.u64("seed", 1);
+    let n = args.u64("count", 100);
+    alloc::set_limit(1 << 30);
+    let ctx = engines::Ctx::new(args);
+    let mut made = 0u64;
+    let mut i = 0u64;
+    while made < n && i < n * 20 {
+        let run_seed = rng::derive_n(seed, "cli", i);
+        i += 1;
+        if let Some((text, lines)) = engines::isolation::cli_case(run_seed, &ctx.names) {
+            println!("{}", serde_json::to_string(&json!({"program": text, "expect": lines})).unwrap());
+            made += 1;
+        }
+    }
     0
 }
